@@ -243,4 +243,13 @@ def r8_assignment_vs_label_lookahead(ctx: Ctx) -> None:
     r6_label_vs_assign_lookahead(ctx)
 
 
-RULES = [r1_if, r2_for, r3_parser_binding, r4_only_the_condition_is_guarded, r5_named_scope_in_iteration, r6_no_capacity_limit_on_scope_log, r7_iteration_scope_replay, r8_assignment_vs_label_lookahead, rb_binding_agreement, rm_no_process_lifetime_results, ru_names_bound]
+def r9_body_scopes(ctx: Ctx) -> None:
+    """a loop or branch body that defines names from the loop variable evaluates them in its own scope (C08.R6), and a { } block inside a body leaves its scope again at expansion time (C08.R1)"""
+    from .c08 import r6_macro_arguments_in_caller_scope as _c08_r6_macro_arguments_in_caller_scope
+    from .c08 import r1_generator_pairing as _c08_r1_generator_pairing
+
+    _c08_r6_macro_arguments_in_caller_scope(ctx)
+    _c08_r1_generator_pairing(ctx)
+
+
+RULES = [r1_if, r2_for, r3_parser_binding, r4_only_the_condition_is_guarded, r5_named_scope_in_iteration, r6_no_capacity_limit_on_scope_log, r7_iteration_scope_replay, r8_assignment_vs_label_lookahead, r9_body_scopes, rb_binding_agreement, rm_no_process_lifetime_results, ru_names_bound]
